@@ -29,7 +29,8 @@ theorem generated_constants :
     C14.kMaxPayloadSize = 1048576 ∧ C14.kNonceSize = 12 ∧ C14.kLengthFieldSize = 4 ∧
     C14.sendShifts = [24, 16, 8, 0] ∧ C14.recvShifts = [24, 16, 8, 0] ∧
     C14.sendCounter = 0 ∧ C14.recvCounter = 0 ∧ C14.recvCheckBeforeBody = true ∧
-    C14.sendHoldsSessionLock = true := by decide
+    C14.sendHoldsSessionLock = true ∧
+    C14.recvKeySnapshotAfterFrame = true ∧ C14.sendKeySnapshotInCall = true := by decide
 
 /-- every size guard of the transport refuses exactly the sizes above 1 MiB -/
 theorem generated_guards (n : Nat) :
@@ -60,6 +61,50 @@ example : ∃ (key : Bytes) (frames : List (Bytes × Bytes)) (chunks : List Byte
     frames ≠ [] ∧ chunks.flatten = frames.flatMap fun (f : Bytes × Bytes) => encodeFrame key f.1 f.2 :=
   ⟨List.replicate 32 0, [(List.replicate 12 7, [1, 2, 3])], [encodeFrame (List.replicate 32 0) (List.replicate 12 7) [1, 2, 3]],
     by simp, by simp, by simp, by simp, by simp⟩
+
+/-- one stretch of a session between two key replacements: the key, the frames sent under it, and the
+pieces in which their bytes reach the reader -/
+structure Segment where
+  key : Bytes
+  frames : List (Bytes × Bytes)
+  chunks : List Bytes
+
+def Segment.ok (g : Segment) : Prop :=
+  g.key.length = 32 ∧ (∀ f ∈ g.frames, f.1.length = 12) ∧ (∀ f ∈ g.frames, f.2.length ≤ 1048576) ∧
+  g.chunks.flatten = g.frames.flatMap fun f => encodeFrame g.key f.1 f.2
+
+theorem feedSegments_from (segs : List Segment) (r : Reader) (hr : Idle r) (h : ∀ g ∈ segs, g.ok) :
+    let r' := feedSegments r (segs.map fun g => (g.key, g.chunks))
+    Idle r' ∧ r'.delivered = r.delivered ++ segs.flatMap fun g => g.frames.map (·.2) := by
+  induction segs generalizing r with
+  | nil => exact ⟨hr, by simp [feedSegments]⟩
+  | cons g gs ih =>
+    obtain ⟨hk, hn, hp, hc⟩ := h g (List.mem_cons_self ..)
+    have hf := feed_frames g.key g.frames r hr hk hn hp
+    simp only [feedSegments, List.map_cons, List.foldl_cons, feedChunks_eq, hc]
+    obtain ⟨i1, i2, _, _⟩ := hf
+    have := ih _ i1 (fun g' hg' => h g' (List.mem_cons_of_mem _ hg'))
+    simp only [feedSegments, feedChunks_eq] at this
+    refine ⟨this.1, ?_⟩
+    rw [this.2, i2]
+    simp
+
+/-- **C14.stream, with key replacements.** The session key may be replaced (`register_peer_key` on the live
+session, at both ends) any number of times; if sender and receiver switch at the same point of the
+byte stream — a frame boundary: every frame is encrypted under the key registered when `send` built it
+and its bytes are read while that key is still the one registered at the receiver — then for every
+sequence of segments (32-byte keys, 12-byte nonces, payloads ≤ 1 MiB, any chunking within a segment)
+the handler still receives exactly the payloads, once each, in send order, and the session stays up. -/
+theorem stream_rekeyed (segs : List Segment) (h : ∀ g ∈ segs, g.ok) :
+    let r := feedSegments Reader.init (segs.map fun g => (g.key, g.chunks))
+    r.delivered = segs.flatMap (fun g => g.frames.map (·.2)) ∧ r.ended = none ∧ r.want = .nonce ∧ r.acc = [] := by
+  have := feedSegments_from segs Reader.init idle_init h
+  exact ⟨by simpa [Reader.init] using this.2, this.1.ended, this.1.want, this.1.acc⟩
+
+example : ∃ segs : List Segment, segs.length = 2 ∧ (∀ g ∈ segs, g.ok) ∧ (segs.map (·.key)).Nodup :=
+  ⟨[⟨List.replicate 32 1, [(List.replicate 12 7, [1, 2, 3])], [encodeFrame (List.replicate 32 1) (List.replicate 12 7) [1, 2, 3]]⟩,
+    ⟨List.replicate 32 2, [(List.replicate 12 8, [4])], [encodeFrame (List.replicate 32 2) (List.replicate 12 8) [4]]⟩],
+   rfl, by simp [Segment.ok], by decide⟩
 
 /-- `send` accepts every payload of at most 1 MiB (in particular exactly 1 MiB) and writes one frame
 of 16 + size bytes -/
